@@ -106,6 +106,36 @@ void runFs(const Scn &scn, Out &out)
     int k = 0;
     foreach (const QString &t, events) {
         QStringList p = t.split(':');
+        if (p[0] == "warmls") {
+            // the same handler object listed the scenario's own directory before, when it held one entry less (or more);
+            // the directory is put back as it was, modification time included.  Not observed.
+            if (!handlerP || !mkroot) continue;
+            const QByteArray dirp = root;
+            struct stat sd; bool haved = ::stat(dirp.constData(), &sd) == 0;
+            auto keepDir = [&]() { if (haved) { struct timespec ts[2] = { sd.st_atim, sd.st_mtim }; ::utimensat(AT_FDCWD, dirp.constData(), ts, 0); } };
+            const QString other = QString::fromUtf8(root) + (p[1] == "1" ? "/zz-extra.bin" : "/f.bin");
+            QByteArray saved;
+            if (p[1] == "1") { QFile f(other); if (f.open(QIODevice::WriteOnly)) { f.write("x"); f.close(); } }      // one entry more
+            else { QFile f(other); if (f.open(QIODevice::ReadOnly)) { saved = f.readAll(); f.close(); } QFile::remove(other); }   // one less
+            keepDir();
+            QStringList sink2;
+            QPointer<SimTcp> wt = new SimTcp;
+            wt->log = &sink2;
+            QPointer<Socket> ws = new Socket(wt);
+            Socket *w = ws;
+            FilesystemHandler *hp2 = handlerP;
+            QObject::connect(w, &Socket::headersParsed, [hp2, w]() { hp2->route(w, w->path().mid(1)); });
+            wt->feed("GET / HTTP/1.1\r\n\r\n");
+            for (int i = 0; i < 6; ++i) { eventTurn(); if (wt) wt->ackAll(); }
+            if (wt) { wt->log = nullptr; wt->peerClose(); }
+            eventTurn();
+            if (ws) delete ws.data();
+            eventTurn();
+            if (p[1] == "1") QFile::remove(other);
+            else { QFile f(other); if (f.open(QIODevice::WriteOnly)) { f.write(saved); f.close(); } }
+            keepDir();
+            continue;
+        }
         if (p[0] == "warmrw") {
             // an earlier request for the scenario's own file, served by the same handler object while the file had
             // another size; the content is put back afterwards with the modification time unchanged (two saves
